@@ -44,6 +44,7 @@ def check(run: Run, prog: Program, model: Model, tier: str) -> None:
     run.explanation += " TRANSPARENT: on every path through Schema.__accept__ -> visit -> hook, the visitor returns exactly the hook call's result and nothing raises after the hook returned."
     run.explanation += " DISPATCH-STATE also covers CustomSchema's own @final hooks (state kept on the instance)."
     run.explanation += " DISPATCH-CHAIN also compares the keyword set that reaches the user's hook with the caller's (an overriding visit() that adds a keyword is a violation); TRANSPARENT has three links: fallback -> visit, visit -> __d42_*__, __d42_*__ -> user hook (the hook's answer is returned on every path)."
+    run.explanation += ' ONLY-ACCEPT also refuses a branch decided by the truth value of a member schema (a custom type may define __len__ / __bool__; no built-in does).'
     run.rule_text = ("one obligation per member-descent site (ONLY-ACCEPT), per link of the dispatch chain and per entry "
                      "function; non-trivial = established on interpreter paths through inlined helpers")
     unroll = 1
@@ -62,6 +63,12 @@ def check(run: Run, prog: Program, model: Model, tier: str) -> None:
                             sites[k2] = (f"{(e.func or '').split('.')[-2]}.{(e.func or '').split('.')[-1]}", e.loc(prog), vis)
                         elif e.kind == "cond":
                             t = e.data.get("term")
+                            if _is_member(t):
+                                # the truth value of a schema object is its class's __bool__ / __len__: no built-in schema
+                                # defines either, a custom type may (a record type with no fields has length 0)
+                                bad[f"{e.func}: truth value of a member schema"] = (
+                                    e.loc(prog), "a branch is decided by the truth value of a member schema (`if member:` instead of "
+                                    "`is not Nil`): a custom type that defines __len__ / __bool__ takes the other branch")
                             if isinstance(t, Term) and t.op == "isinstance" and _is_member(t.args[0]):
                                 label = str(t.args[1])
                                 if any(l.endswith("Schema") for l in label.split("|")):
@@ -452,4 +459,11 @@ MUTANTS += [
                ('d42/substitution/_validator.py', '\n\nclass SubstitutorValidator(Validator):\n    def visit_list(self, schema: ListSchema, *,\n                   value: Any = Nil, path: Nilable[PathHolder] = Nil,\n                   **kwargs: Any) -> ValidationResult:\n', "\n\nclass SubstitutorValidator(Validator):\n    def visit(self, schema: GenericSchema, *, value: Any = Nil, path: Nilable[PathHolder] = Nil,\n              **kwargs: Any) -> ValidationResult:\n        # Types without a dedicated ``visit_*`` method (custom types) are validated by their\n        # own ``__validate__`` hook. While substituting, the value is a *pattern*: it may be\n        # partial and may contain ``...`` placeholders, which a hook written for real values\n        # does not expect. Tell the hook which kind of validation is going on, so that it\n        # can be lenient too (hooks that don't care simply ignore the extra keyword).\n        return super().visit(schema, value=value, path=path, substitution=True, **kwargs)\n\n    def visit_list(self, schema: ListSchema, *,\n                   value: Any = Nil, path: Nilable[PathHolder] = Nil,\n                   **kwargs: Any) -> ValidationResult:\n")]},
     {"name": 'seeded C16-N', "rule": 'TRANSPARENT',
      "edits": [('d42/custom_type/_custom_type.py', '    @final\n    def __d42_generate__(self, visitor: Generator, **kwargs: Any) -> Any:\n        if generate_method := getattr(self, "__generate__", None):\n            return generate_method(visitor, **kwargs)\n        raise NotImplementedError(\n            f"{self.__class__.__name__} has no method \'__generate__\'")\n\n', '    @final\n    def __d42_generate__(self, visitor: Generator, **kwargs: Any) -> Any:\n        if generate_method := getattr(self, "__generate__", None):\n            generated = generate_method(visitor, **kwargs)\n            if generated is None:\n                # a hook whose branches do not all end in `return` yields None silently, and the\n                # missing value only shows up much later, as a validation error far from its cause\n                raise ValueError(\n                    f"{self.__class__.__name__}.__generate__ returned no value")\n            return generated\n        raise NotImplementedError(\n            f"{self.__class__.__name__} has no method \'__generate__\'")\n\n')]},
+]
+
+# round 8: the seeded changes that were missed on first contact, replayed against the current tree
+MUTANTS += [
+    {"name": 'seeded C16-O', "rule": 'ONLY-ACCEPT',
+     "edits": [('d42/generation/_generator.py', '                max_length = max(max_length, min_length)\n            length = self._random.random_int(min_length, max_length)\n\n        if schema.props.type is not Nil:\n            return [schema.props.type.__accept__(self, **kwargs) for _ in range(length)]\n\n        if is_length_specified:\n            return [[] for _ in range(length)]\n', '                max_length = max(max_length, min_length)\n            length = self._random.random_int(min_length, max_length)\n\n        if type_schema := schema.props.type:\n            return [type_schema.__accept__(self, **kwargs) for _ in range(length)]\n\n        if is_length_specified:\n            return [[] for _ in range(length)]\n'),
+               ('d42/validation/_validator.py', '                return result.add_error(\n                    MaxLengthValidationError(path, value, schema.props.max_len))\n\n        if (schema.props.type is Nil) and (schema.props.elements is Nil):\n            return result\n\n        if schema.props.type is not Nil:\n            type_schema = schema.props.type\n            for index, elem in enumerate(value):\n                nested_path = deepcopy(path)[index]\n                res = type_schema.__accept__(self, value=elem, path=nested_path, **kwargs)\n                result.add_errors(res.get_errors())\n            return result\n\n        elements = cast(List[GenericSchema], schema.props.elements)\n\n        # body\n', '                return result.add_error(\n                    MaxLengthValidationError(path, value, schema.props.max_len))\n\n        if type_schema := schema.props.type:\n            for index, elem in enumerate(value):\n                nested_path = deepcopy(path)[index]\n                res = type_schema.__accept__(self, value=elem, path=nested_path, **kwargs)\n                result.add_errors(res.get_errors())\n            return result\n\n        if schema.props.elements is Nil:\n            return result\n\n        elements = cast(List[GenericSchema], schema.props.elements)\n\n        # body\n')]},
 ]
